@@ -30,7 +30,35 @@ def py_miter(l, r):
         return {'err': err_name(e)}
 
 
+WIDE = [13, 15, 16, 17, 18, 31, 32, 33, 34, 47, 48, 49, 63, 64, 65, 66, 97, 127, 128, 129, 255, 256, 257, 272, 273, 289, 513]
+
+
+def gen_wide_pair(ctx, rng):
+    """many outputs (13..513: a wide OR, or whatever the library builds from it in groups), the operands equal except
+    at exactly one output position — first, last, or random — so that only one xor is ever True"""
+    ni = rng.choice([1, 2, 2, 3])
+    no = rng.choice(WIDE) if rng.random() < 0.7 else rng.randint(13, 300)
+    j, _ = gen.gen_circuit(rng, max_inputs=ni, min_inputs=ni, max_gates=6, n_outputs=1, max_arity=3)
+    a = realize(j)
+    labels = [g[0] for g in a['gates']]
+    if not labels or 'neg_of_out' in labels:
+        return None
+    outs = [rng.choice(labels) for _ in range(no)]
+    a = realize({'gates': a['gates'], 'inputs': a['inputs'], 'outputs': outs, 'blocks': []})
+    b = json.loads(json.dumps(a))
+    mode = rng.choice(['neg_last', 'neg_last', 'neg_first', 'neg_random', 'same'])
+    if mode != 'same':
+        k = {'neg_last': no - 1, 'neg_first': 0}.get(mode, rng.randrange(no))
+        b['gates'].append(['neg_of_out', 'NOT', [b['outputs'][k]]])
+        b['outputs'][k] = 'neg_of_out'
+        b = realize({'gates': b['gates'], 'inputs': b['inputs'], 'outputs': b['outputs'], 'blocks': []})
+    ctx.count('wide_outputs')
+    return a, b
+
+
 def gen_pair(ctx, rng):
+    if rng.random() < 0.12:
+        return gen_wide_pair(ctx, rng)
     ni = rng.choice([0, 1, 2, 2, 3, 3, 4])
     no = rng.choice([1, 1, 2, 2, 3, 4, 6, 7, 10, 12])
     j, _ = gen.gen_circuit(rng, max_inputs=ni, min_inputs=ni, max_gates=10, n_outputs=no, max_arity=3)
